@@ -536,6 +536,9 @@ def run(ctx):
     from .shared import rule_signal_dispositions
     r9 = ctx.rule("R9", "a client that vanishes costs one connection, not the process: no code of the package restores the default (fatal) disposition of SIGPIPE")
     rule_signal_dispositions(ctx, r9, "C14")
+    r10 = ctx.rule("R10", "'a state query returns each task's state under its own id': an id that was handed out stays in the pool's tables")
+    from .localpool import rule_tasks_never_forgotten
+    rule_tasks_never_forgotten(ctx, r10, "a client asking for that id gets no state (or an exception kills its connection and the requests queued behind it)")
     from .shared import rule_coroutines_awaited
     r8 = ctx.rule("R8", "requests are carried out: every coroutine of the pool that is called is awaited or scheduled (no call statement drops a coroutine object)")
     rule_coroutines_awaited(ctx, r8)
